@@ -39,7 +39,10 @@ func (r *Rediaron) StartEphemeral(ctx context.Context, path string, heartbeat ti
 			select {
 			case <-tick.C:
 				if err := r.refreshEphemeral(ctx, path, heartbeat); err != nil {
-					r.revokeEphemeral(path)
+					// nothing of ours is left to revoke when the key has expired
+					if !errors.Is(err, types.ErrKeyNotExists) {
+						r.revokeEphemeral(path)
+					}
 					return
 				}
 			case <-ctx.Done():
@@ -66,6 +69,13 @@ func (r *Rediaron) revokeEphemeral(path string) {
 func (r *Rediaron) refreshEphemeral(ctx context.Context, path string, ttl time.Duration) error {
 	ctx, cancel := context.WithTimeout(ctx, time.Second)
 	defer cancel()
-	_, err := r.cli.Expire(ctx, path, ttl).Result()
-	return err
+	exists, err := r.cli.Expire(ctx, path, ttl).Result()
+	if err != nil {
+		return err
+	}
+	if !exists {
+		// expired already (e.g. this process was stalled): tell the registrant
+		return errors.Wrap(types.ErrKeyNotExists, path)
+	}
+	return nil
 }
